@@ -32,7 +32,8 @@ TECHNIQUE = "exhaustive composition of generated source files x all 16 converter
 LEVEL_TEXT = (
     "Abstract charts: key counts 4/7 (+6 and 8 for StepMania sources, 7 for O2Jam) x first tempo point at 0 / 341 ms x tempo lists (one; a "
     "change on a measure line; two changes) x note layouts (hits; hits and holds; hold across the tempo change; chord; every column) x SVs "
-    "for osu/Quaver, rendered as .osu/.qua/.sm/BMS/.ojn sources; every source x every converter to a writable game (osu, Quaver, StepMania, "
+    "for osu/Quaver (and a 3/4 meter on later .osu timing points), rendered as .osu/.qua/.sm/BMS/.ojn sources -- the three O2Jam "
+    "difficulties and the two charts of a .sm file each carry different notes; every source x every converter to a writable game (osu, Quaver, StepMania, "
     "BMS; with the move_right_by defaults): target file valid, objects (kind, column, time, length) and tempo step function equal to the "
     "source's within the coarser resolution."
 )
